@@ -5,6 +5,7 @@ CONSTANTS
   DevMultiDrop = TRUE
   DevIncomingDrop = TRUE
   DevManagedEmpty = TRUE
+  DevPollMultiLen = TRUE
   Part = "listen"
   Feat = {"multi"}
   Sizes = {1, 3}
